@@ -1413,6 +1413,11 @@ impl BenchContext<'_> {
     ) -> (&mut SampleCollection, &mut CounterCollection) {
         (&mut self.samples, &mut self.counters)
     }
+
+    /// Verification hook: whether statistics would be computed for this run.
+    pub(crate) fn shared_action_is_bench(&self) -> bool {
+        self.shared_context.action.is_bench()
+    }
 }
 
 impl<T> StatsSet<AllocTally<T>> {
